@@ -71,8 +71,13 @@ func main() {
 		begin  = flag.Bool("begin", false, "print BEGIN <idx> to stderr before every world")
 		budget = flag.Float64("budget", 0, "stop after this many seconds (0 = no limit)")
 		selftest = flag.String("selftest", "", "determinism: print event hashes of worlds to this file")
+		solo     = flag.Bool("solo", false, "C07 variant d child: world on stdin, observation log on stdout")
 	)
 	flag.Parse()
+	if *solo {
+		soloMain()
+		return
+	}
 	warmup()
 
 	if *replay != "" {
@@ -120,7 +125,7 @@ func main() {
 			hashes = append(hashes, fmt.Sprintf("%d %016x %016x", i, info.Hash, info.Interleave))
 		}
 		// in-run determinism re-check on 2% of the worlds
-		if i%50 == 7 {
+		if i%50 == 7 && !impl.NoRecheck {
 			w2 := genWorld(impl, *seed, i, *tier)
 			v2, info2 := impl.Exec(w2, NewStats())
 			st.Rechecks++
